@@ -85,10 +85,11 @@ def _worker_init(mirpath,modname,clsname,tier,timeout_ms,params):
 def _worker_run(prefixes,budget=None):
     eng=_W['eng']; ob=_W['ob']
     t=time.time(); q0=eng.queries; s0=eng.solver_s
+    for k in eng.second_solver: eng.second_solver[k]=0
     try:
         recs=eng.explore(ob.entry(eng),ob.mk_args,ob.check,max_paths=ob.max_paths,prefixes=prefixes,budget=budget)
         return {'leftover':eng.leftover,'recs':recs,'paths':eng.npaths,'infeasible':eng.ninfeasible,'queries':eng.queries-q0,'solver_s':eng.solver_s-s0,
-                'used':dict(eng.used),'fn_used':dict(eng.fn_used),'wall':time.time()-t,'error':None}
+                'used':dict(eng.used),'fn_used':dict(eng.fn_used),'wall':time.time()-t,'error':None,'second':dict(eng.second_solver)}
     except Unsupported as e:
         return {'recs':[],'paths':getattr(eng,'npaths',0),'infeasible':0,'queries':eng.queries-q0,'solver_s':eng.solver_s-s0,
                 'used':dict(eng.used),'fn_used':dict(eng.fn_used),'wall':time.time()-t,'error':'Unsupported: '+str(e)}
@@ -104,11 +105,13 @@ def run_obligation(modname,clsname,tier,mirpath,jobs=None,timeout_ms=None,params
     t0=time.time()
     _worker_init(mirpath,modname,clsname,tier,timeout_ms,params)
     eng=_W['eng']; ob=_W['ob']
-    agg={'paths':0,'infeasible':0,'queries':0,'solver_s':0.0,'used':collections.Counter(),'fn_used':collections.Counter(),'recs':[],'errors':[]}
+    agg={'paths':0,'infeasible':0,'queries':0,'solver_s':0.0,'used':collections.Counter(),'fn_used':collections.Counter(),'recs':[],'errors':[],'second':collections.Counter()}
+    for k in eng.second_solver: eng.second_solver[k]=0
     def merge(r):
         agg['paths']+=r['paths']; agg['infeasible']+=r['infeasible']; agg['queries']+=r['queries']; agg['solver_s']+=r['solver_s']
         agg['used'].update(r['used']); agg['fn_used'].update(r['fn_used']); agg['recs'].extend(r['recs'])
         if r['error']: agg['errors'].append(r['error'])
+        agg['second'].update(r.get('second') or {})
     if jobs<=1:
         merge(_worker_run(None))
     else:
@@ -143,5 +146,5 @@ def run_obligation(modname,clsname,tier,mirpath,jobs=None,timeout_ms=None,params
     for b in eng.bodies:
         if b.kind=='fn' and b.name in agg['fn_used']: agg['fn_hashes'][b.name]=b.text_hash
     agg['bounds']=dict(ob.bounds); agg['witnesses']=list(ob.witnesses); agg['name']=ob.name; agg['hash_order']=ob.hash_order
-    agg['used']=dict(agg['used']); agg['fn_used']=dict(agg['fn_used'])
+    agg['used']=dict(agg['used']); agg['fn_used']=dict(agg['fn_used']); agg['second']=dict(agg['second'])
     return agg
